@@ -443,6 +443,8 @@ def classify(case, obs):
             return 'negative-duration-empty'
         if any_node(pt, env, arith_over_par):
             return 'arith-over-parallel-order'
+        if any_node(pt, env, mapping_captures):
+            return 'mapping-captures-loop-index'
         if any_atom(pt, env, constant_detection_wrong):
             return 'table-constant-detection'
         bad_int = bad_ini = False
@@ -891,8 +893,378 @@ def handmade():
     return cs
 
 
+# ---------------------------------------------------------------------------------------------------------------------
+# aliasing / history stream (round 3): forests whose templates SHARE sub-template objects, with a query history.
+# A pool is a list of trees in which a node {'ref': k} (k < own index) stands for the k-th pool OBJECT; `roots` are
+# pool indices; `history` is a list of [root position, query].  Every root becomes one case (kind 'pulse', pt = the
+# expanded tree of the root) carrying the whole forest; run_impl replays the history on the shared objects.
+
+def expand(t, pool):
+    if 'ref' in t:
+        return expand(pool[t['ref']], pool)
+    out = {}
+    for k, v in t.items():
+        if k in ('b', 'l', 'r'):
+            out[k] = expand(v, pool)
+        elif k == 'ps':
+            out[k] = [expand(x, pool) for x in v]
+        else:
+            out[k] = v
+    return out
+
+
+QUERY_KINDS = ['integral', 'initial', 'final', 'duration', 'pad', 'program']
+HIST_ORDERS = ['forward', 'backward', 'twice', 'random']
+
+
+def make_history(rng, nroots, order):
+    """[[root position, query], ...]: every root asked for every symbolic quantity, in the given order discipline"""
+    base = ['initial', 'final', 'integral', 'duration']
+    if order == 'forward':
+        h = [[j, q] for j in range(nroots) for q in base]
+    elif order == 'backward':
+        h = [[j, q] for j in reversed(range(nroots)) for q in reversed(base)]
+    elif order == 'twice':                  # every quantity twice in a row, pad_to in between
+        h = []
+        for j in range(nroots):
+            for q in base:
+                h += [[j, q], [j, q]]
+            h.append([j, 'pad'])
+        h += [[j, q] for j in range(nroots) for q in ('final', 'initial')]
+    else:
+        h = [[rng.randrange(nroots), rng.choice(QUERY_KINDS if rng.random() < 0.3 else base)]
+             for _ in range(rng.randint(nroots, 4 * nroots))]
+    return h
+
+
+def forest_to_cases(pool, roots, history, params, src, pad='1'):
+    cases = []
+    forest = {'pool': pool, 'roots': roots, 'history': history}
+    trees = [expand(pool[k], pool) for k in roots]
+    for tr in trees:
+        if not fix_channels(tr):
+            return []
+    allp = {}
+    for tr in trees:
+        allp.update(used_params(tr, params))
+    for j, tr in enumerate(trees):
+        cases.append({'kind': 'pulse', 'pt': tr, 'params': dict(allp), 'pad': pad, 'src': src, 'forest': forest, 'target': j,
+                      'shapes': []})
+    return cases
+
+
+def _shared_bodies():
+    """index dependent building blocks (index i1 in voltages; non-negative ranges only where it enters a duration)"""
+    i = V('i1')
+    return {
+        'const': {'k': 'const', 'd': C(F(1, 2)), 'vals': {'A': add(V('a'), mul(i, C(F(1, 4)))), 'B': ['neg', i]}},
+        'const-idur': {'k': 'const', 'd': add(C(F(1, 2)), mul(i, C(F(1, 4)))), 'vals': {'A': mul(i, V('a'))}},
+        'table': {'k': 'table', 'ch': {'A': [[C(0), i, 'hold'], [C(1), add(i, C(1)), 'linear'], [C(F(3, 2)), V('a'), 'hold']]}},
+        'point': {'k': 'point', 'cs': ['A', 'B'], 'ents': [[C(0), {'vec': [i, V('a')]}, 'hold'], [C(1), {'s': add(i, C(1))}, 'linear']]},
+        'func': {'k': 'func', 'c': 'A', 'd': C(1), 'coef': [i, V('a')]},
+        'par-const': {'k': 'par', 'b': {'k': 'const', 'd': C(1), 'vals': {'A': i}}, 'ov': {'B': [mul(i, V('a'))]}},
+        'arith-const': {'k': 'arithl', 'b': {'k': 'const', 'd': C(1), 'vals': {'A': V('a')}}, 'op': '*', 's': {'all': i}},
+        'seq-const': {'k': 'seq', 'ps': [{'k': 'const', 'd': C(F(1, 2)), 'vals': {'A': i}},
+                                         {'k': 'const', 'd': C(1), 'vals': {'A': add(i, V('a'))}}]},
+    }
+
+
+def _enclosures(ref, chans, atomic):
+    """templates around the shared object `ref` (free index i1): each class that reads the body's dictionaries"""
+    S = {'ref': ref}
+    fl = lambda a, o, s: {'k': 'for', 'i': 'i1', 'start': a, 'stop': o, 'step': s, 'b': S}
+    enc = {
+        'for-0-3': fl(C(0), C(3), C(1)),
+        'for-1-n': fl(C(1), V('n'), C(1)),
+        'for-down': fl(C(4), C(0), C(-2)),
+        'rep-for': {'k': 'rep', 'n': C(2), 'b': fl(C(2), C(9), C(3))},
+        'alone': S,
+        'seq-twice': {'k': 'seq', 'ps': [S, S]},
+        'seq-first': {'k': 'seq', 'ps': [S, {'k': 'const', 'd': C(1), 'vals': {c: C(2) for c in chans}}]},
+        'rep': {'k': 'rep', 'n': V('n'), 'b': S},
+        'map-rebind': {'k': 'for', 'i': 'i1', 'start': C(0), 'stop': C(3), 'step': C(1),
+                       'b': {'k': 'map', 'b': S, 'pm': {'i1': add(mul(V('i1'), C(2)), C(1))}, 'cm': []}},
+        'map-rename': {'k': 'map', 'b': S, 'pm': {'a': mul(V('a'), C(2)), 'i1': V('m')}, 'cm': [[chans[0], 'D']]},
+        'par': {'k': 'par', 'b': S, 'ov': {'C': [V('a')]}},
+        'par-over': {'k': 'par', 'b': S, 'ov': {chans[-1]: [C(5)]}},
+        'arithr': {'k': 'arithr', 'b': S, 'op': '-', 's': {'all': V('a')}},
+        'for-par': {'k': 'for', 'i': 'i1', 'start': C(1), 'stop': C(4), 'step': C(2), 'b': {'k': 'par', 'b': S, 'ov': {'C': [V('i1')]}}},
+    }
+    if atomic:
+        enc['aatom-self'] = {'k': 'aatom', 'l': S, 'op': '+', 'r': S}
+        enc['for-aatom-self'] = dict(fl(C(0), C(3), C(2)), b={'k': 'aatom', 'l': S, 'op': '+', 'r': S})
+    return enc
+
+
+FOREST_PARAMS = {'a': '3/4', 'n': '6', 'm': '2', 'i1': '1'}
+
+
+def shared_body_forests(rng, per_body, orders=None, enc_names=None):
+    """deterministic family: one index dependent building block shared by the enclosing templates of `_enclosures`
+    (seed C07-4's shape: loops over different ranges, a repeated loop, the block alone, a parallel channel ...)"""
+    cases = []
+    for name, body in _shared_bodies().items():
+        chans = out_channels(body)
+        atomic = body['k'] in ('const', 'table', 'point', 'func')      # ArithmeticAtomicPT wants AtomicPulseTemplates
+        enc = _enclosures(0, chans, atomic)
+        names = sorted(enc)
+        for k in range(per_body):
+            if enc_names is not None:
+                pick = list(enc_names)
+            else:
+                pick = ['for-0-3', 'for-1-n', 'for-down', 'rep-for', 'alone'] if k == 0 else rng.sample(names, rng.randint(2, 5))
+            pick = [p for p in pick if p in enc]
+            if k > 0:
+                rng.shuffle(pick)
+            order = (orders or HIST_ORDERS)[k % len(orders or HIST_ORDERS)]
+            pool = [body] + [enc[p] for p in pick]
+            roots = list(range(1, len(pool)))
+            cases += forest_to_cases(pool, roots, make_history(rng, len(roots), order), FOREST_PARAMS,
+                                     'forest:shared-%s:%s' % (name, order))
+    return cases
+
+
+def exhaustive_pair_forests(rng):
+    """small scope, exhaustive: every building block x every ORDERED pair of enclosing classes, queried first-then-second
+    (each quantity once) - the second answer must not depend on the first template having been queried"""
+    cases = []
+    for name, body in _shared_bodies().items():
+        chans = out_channels(body)
+        enc = _enclosures(0, chans, body['k'] in ('const', 'table', 'point', 'func'))
+        for x in sorted(enc):
+            for y in sorted(enc):
+                if x == y:
+                    continue
+                pool = [body, enc[x], enc[y]]
+                hist = [[0, 'initial'], [0, 'final'], [0, 'integral'], [0, 'duration']]
+                cs = forest_to_cases(pool, [1, 2], hist, FOREST_PARAMS, 'forest:pair-%s' % name)
+                cases += cs[1:]               # the second template is the one at risk; the first is the plain stream's
+    return cases
+
+
+def _pick_subtree(rng, t, path=()):
+    """all (path, node) below the root"""
+    out = []
+    for key in ('b', 'l', 'r'):
+        if key in t:
+            out.append((path + (key,), t[key]))
+            out += _pick_subtree(rng, t[key], path + (key,))
+    for n, s in enumerate(t.get('ps', [])):
+        out.append((path + (('ps', n),), s))
+        out += _pick_subtree(rng, s, path + (('ps', n),))
+    return out
+
+
+def _replace(t, path, new):
+    if not path:
+        return new
+    key = path[0]
+    if isinstance(key, tuple):
+        ps = list(t['ps'])
+        ps[key[1]] = _replace(ps[key[1]], path[1:], new)
+        return dict(t, ps=ps)
+    return dict(t, **{key: _replace(t[key], path[1:], new)})
+
+
+def random_forest(rng, depth):
+    """a random template, one of its sub-templates made a shared object, and further random templates around the same
+    object (loop indices that were bound in the first template are rebound by a new loop or become plain parameters)"""
+    for _ in range(30):
+        c = random_case(rng, depth)
+        subs = [(p, n) for p, n in _pick_subtree(rng, c['pt']) if n['k'] not in ('func',) or True]
+        if not subs:
+            continue
+        path, S = rng.choice(subs)
+        chans = out_channels(S)
+        if not chans or not fix_channels(S):
+            continue
+        fv = sorted(v for v in free_vars(S) if v.startswith('i'))
+        atomic = S['k'] in ('table', 'point', 'const', 'func', 'multi', 'aatom')
+        pool = [S, _replace(c['pt'], path, {'ref': 0})]
+        extra = []
+        cx = Ctx(rng)
+        for _ in range(rng.randint(1, 3)):
+            x = rng.random()
+            R = {'ref': 0}
+            if fv and x < 0.45:
+                a, o, s = rng.choice([(0, 3, 1), (1, 4, 2), (3, 0, -1), (0, 1, 1), (2, 9, 3)])
+                e = {'k': 'for', 'i': fv[0], 'start': C(a), 'stop': C(o), 'step': C(s), 'b': R}
+            elif x < 0.55:
+                e = R
+            elif x < 0.65:
+                e = {'k': 'seq', 'ps': [R, R]}
+            elif x < 0.72:
+                e = {'k': 'rep', 'n': C(rng.choice([1, 2, 3])), 'b': R}
+            elif x < 0.8:
+                e = {'k': 'par', 'b': R, 'ov': {rng.choice(['C', 'D', chans[-1]]): [cx.volt()]}}
+            elif x < 0.88:
+                e = {'k': rng.choice(['arithl', 'arithr']), 'b': R, 'op': rng.choice(['+', '-', '*']), 's': {'all': cx.volt()}}
+            elif x < 0.94 and atomic:
+                e = {'k': 'aatom', 'l': R, 'op': rng.choice(['+', '-']), 'r': R}
+            else:
+                pm = {v: add(V(v), C(1)) for v in sorted(free_vars(S)) if rng.random() < 0.5 and v in ('a', 'b', 'c', 'n', 'm') + tuple(fv)}
+                e = {'k': 'map', 'b': R, 'pm': pm, 'cm': []}
+            extra.append(e)
+        pool += extra
+        roots = list(range(1, len(pool))) + ([0] if rng.random() < 0.3 else [])
+        params = dict(params_for(rng), **{v: '1' for v in fv})
+        params.update(c['params'])
+        trees = [expand(pool[k], pool) for k in roots]
+        try:
+            if any(pdur(tr, {k: F(v) for k, v in params.items()}) > 40 for tr in trees):
+                continue
+        except (KeyError, ZeroDivisionError, ValueError):
+            continue
+        cs = forest_to_cases(pool, roots, make_history(rng, len(roots), rng.choice(HIST_ORDERS)), params, 'forest:random',
+                             pad=c['pad'])
+        if cs:
+            return cs
+    return []
+
+
+def blind_class_families(tier='thorough'):
+    """round 3: deterministic families for input classes the random grammar reaches only by luck (each is one of the
+    name-coincidence / declared-empty classes of tools/ROUND3_BRIEF.md applied to this property's case grammar)"""
+    cs = []
+
+    def case(pt, params, src, pad='1'):
+        cs.append({'kind': 'pulse', 'pt': pt, 'params': params, 'pad': pad, 'src': src, 'shapes': []})
+    # (1) parameters as table / point entry TIMES, in particular the FIRST entry's time (implicit hold from 0) -----------
+    for T0 in ('0', '1/2', '2'):
+        for v0 in ('3/4', '0', '-2'):
+            tb = {'k': 'table', 'ch': {'A': [[V('T'), V('a'), 'hold'], [add(V('T'), C(1)), V('b'), 'linear'],
+                                              [add(V('T'), V('U')), C(F(1, 2)), 'hold']]}}
+            case(tb, {'T': T0, 'U': '2', 'a': v0, 'b': '1'}, 'times:first-entry-symbolic')
+            case({'k': 'seq', 'ps': [tb, tb]}, {'T': T0, 'U': '2', 'a': v0, 'b': '1'}, 'times:first-entry-symbolic')
+    for T0 in ('0', '1', '4'):
+        two = {'k': 'table', 'ch': {'A': [[C(0), C(1), 'hold'], [V('U'), C(3), 'linear']],
+                                    'B': [[V('T'), V('a'), 'hold'], [V('U'), C(0), 'jump']]}}
+        case(two, {'T': T0, 'U': '4', 'a': '5/4'}, 'times:first-entry-symbolic')
+        case({'k': 'for', 'i': 'i1', 'start': C(0), 'stop': C(3), 'step': C(1),
+              'b': {'k': 'table', 'ch': {'A': [[mul(V('i1'), V('T')), V('a'), 'hold'],
+                                               [add(mul(V('i1'), V('T')), C(1)), V('i1'), 'linear']]}}},
+             {'T': T0, 'a': '3/4'}, 'times:first-entry-symbolic')
+        case({'k': 'point', 'cs': ['A', 'B'], 'ents': [[V('T'), {'vec': [V('a'), C(1)]}, 'hold'],
+                                                        [add(V('T'), C(2)), {'s': C(2)}, 'linear']]},
+             {'T': T0, 'a': '3/4'}, 'times:first-entry-symbolic')
+        case({'k': 'map', 'b': two, 'pm': {'T': mul(V('T'), C(F(1, 2)))}, 'cm': []}, {'T': T0, 'U': '4', 'a': '1'},
+             'times:first-entry-symbolic')
+    # all times symbolic, the last one equal to the one before (zero-length tail) / strictly larger
+    # (a zero-length LINEAR step makes LinearInterpolationStrategy divide by zero when sampled: not generated)
+    for U, ip in (('0', 'hold'), ('0', 'jump'), ('1', 'linear'), ('1', 'jump')):
+        case({'k': 'table', 'ch': {'A': [[V('T'), V('a'), 'hold'], [add(V('T'), V('U')), C(2), ip]]}},
+             {'T': '1', 'U': U, 'a': '3/4'}, 'times:all-symbolic')
+    # (2) the LONGEST channel (the one that fixes the duration) is the one a mapping drops / renames -------------------
+    long_b = {'k': 'table', 'ch': {'A': [[C(0), C(1), 'hold'], [C(1), V('a'), 'linear']],
+                                   'B': [[C(0), C(0), 'hold'], [V('T'), C(1), 'linear']]}}
+    for T in ('1/2', '1', '4'):
+        case({'k': 'map', 'b': long_b, 'pm': {}, 'cm': [['B', None]]}, {'a': '2', 'T': T}, 'longest-channel-dropped')
+        case({'k': 'map', 'b': long_b, 'pm': {}, 'cm': [['A', None]]}, {'a': '2', 'T': T}, 'longest-channel-dropped')
+        case({'k': 'map', 'b': long_b, 'pm': {}, 'cm': [['B', 'A'], ['A', 'B']]}, {'a': '2', 'T': T}, 'longest-channel-dropped')
+        case({'k': 'par', 'b': {'k': 'map', 'b': long_b, 'pm': {}, 'cm': [['B', None]]}, 'ov': {'B': [V('a')]}},
+             {'a': '2', 'T': T}, 'longest-channel-dropped')
+    # (3) a mapping between a loop and its body REBINDS THE LOOP INDEX to an expression of itself; swap / shift mappings --
+    cb = {'k': 'const', 'd': C(1), 'vals': {'A': mul(V('i1'), V('a'))}}
+    tbi = {'k': 'table', 'ch': {'A': [[C(0), V('i1'), 'hold'], [C(1), add(V('i1'), V('a')), 'linear']]}}
+    nth = 0
+    for body in (cb, tbi):
+        for rb in (add(V('i1'), C(1)), mul(V('i1'), C(2)), ['-', C(3), V('i1')], add(V('i1'), V('a'))):
+            for rg in ((0, 3, 1), (4, 0, -2), (1, 2, 1)):
+                m = {'k': 'map', 'b': body, 'pm': {'i1': rb}, 'cm': []}
+                lp = lambda b: {'k': 'for', 'i': 'i1', 'start': C(rg[0]), 'stop': C(rg[1]), 'step': C(rg[2]), 'b': b}
+                variants = [lp(m), lp({'k': 'rep', 'n': C(2), 'b': m}),
+                            {'k': 'map', 'b': lp(m), 'pm': {'a': add(V('a'), C(1))}, 'cm': [['A', 'D']]}]
+                nth += 1
+                for v in ([variants[nth % 3]] if tier == 'quick' else variants):    # quick: one wrapper per combination
+                    case(v, {'a': '3/4'}, 'index-rebound-by-mapping')
+    sw = {'k': 'table', 'ch': {'A': [[C(0), V('a'), 'hold'], [V('T'), V('b'), 'linear'], [add(V('T'), C(1)), V('c'), 'hold']]}}
+    for pm in ({'a': V('b'), 'b': V('a')}, {'a': add(V('b'), C(1)), 'b': V('c')}, {'b': add(V('a'), C(1)), 'a': V('c')},
+               {'a': V('b'), 'b': V('c'), 'c': V('a')}, {'a': mul(V('a'), C(2))}, {'T': add(V('T'), V('T'))}):
+        case({'k': 'map', 'b': sw, 'pm': pm, 'cm': []}, {'a': '1', 'b': '3', 'c': '-2', 'T': '2'}, 'swap-shift-mapping')
+        inner_m = {'k': 'map', 'b': sw, 'pm': pm, 'cm': []}
+        if set(pm) <= free_vars(inner_m):        # (a mapping for a name the inner mapping consumed is rejected)
+            case({'k': 'map', 'b': inner_m, 'pm': pm, 'cm': [['A', 'B']]},
+                 {'a': '1', 'b': '3', 'c': '-2', 'T': '2'}, 'swap-shift-mapping')
+    # (4) a parameter that is CALLED like the internal time variable t (a parameter wherever no waveform time exists) ------
+    case({'k': 'table', 'ch': {'A': [[C(0), V('t'), 'hold'], [C(2), add(V('t'), C(1)), 'linear']]}}, {'t': '3'}, 'parameter-named-t')
+    case({'k': 'par', 'b': {'k': 'table', 'ch': {'A': [[C(0), V('t'), 'hold'], [C(2), add(V('t'), C(1)), 'linear']]}},
+          'ov': {'B': [V('a')]}}, {'t': '3', 'a': '1'}, 'parameter-named-t')
+    case({'k': 'const', 'd': V('t'), 'vals': {'A': C(1)}}, {'t': '2'}, 'parameter-named-t')
+    case({'k': 'par', 'b': {'k': 'const', 'd': V('t'), 'vals': {'A': C(1)}}, 'ov': {'B': [V('a')]}}, {'t': '2', 'a': '5'},
+         'parameter-named-t')
+    case({'k': 'for', 'i': 't', 'start': C(0), 'stop': C(3), 'step': C(1), 'b': {'k': 'const', 'd': C(1), 'vals': {'A': V('t')}}},
+         {}, 'parameter-named-t')
+    case({'k': 'map', 'b': {'k': 'func', 'c': 'A', 'd': C(2), 'coef': [C(0), V('a')]}, 'pm': {'a': V('t')}, 'cm': []},
+         {'t': '3'}, 'parameter-named-t')
+    # (5) "declared as empty" versus "not declared": empty scalar mapping, empty set of overwritten channels -------------
+    c2 = {'k': 'const', 'd': C(2), 'vals': {'A': V('a'), 'B': C(1)}}
+    case({'k': 'arithl', 'b': c2, 'op': '+', 's': {'map': {}}}, {'a': '3'}, 'declared-empty')
+    case({'k': 'arithr', 'b': c2, 'op': '-', 's': {'map': {}}}, {'a': '3'}, 'declared-empty')
+    case({'k': 'arithl', 'b': c2, 'op': '*', 's': {'map': {}}}, {'a': '3'}, 'declared-empty')
+    case({'k': 'par', 'b': c2, 'ov': {}}, {'a': '3'}, 'declared-empty')
+    case({'k': 'map', 'b': c2, 'pm': {}, 'cm': []}, {'a': '3'}, 'declared-empty')
+    # (6) the same OBJECT twice inside one template (run_impl builds each sub-tree once per occurrence: the forest stream
+    #     shares objects; these are the value-level twins)
+    case({'k': 'seq', 'ps': [c2, c2]}, {'a': '3'}, 'same-twice')
+    case({'k': 'aatom', 'l': c2, 'op': '-', 'r': c2}, {'a': '3'}, 'same-twice')
+    return cs
+
+
+def capture_family():
+    """finding mapping-captures-loop-index: MappingPT substitutes an outer expression that mentions a name which is
+    ALSO the index of a loop inside the mapped template into that loop's Sum(...) closed form: the bound summation
+    variable captures it (integral and duration; initial/final values substitute the index first and are right)"""
+    cs = []
+    inner = {'k': 'for', 'i': 'i1', 'start': C(0), 'stop': C(3), 'step': C(1),
+             'b': {'k': 'const', 'd': C(1), 'vals': {'A': mul(V('i1'), V('a'))}}}
+    m = {'k': 'map', 'b': inner, 'pm': {'a': V('i1')}, 'cm': []}
+    cs.append({'kind': 'pulse', 'pt': m, 'params': {'i1': '2'}, 'pad': '1', 'src': 'capture', 'shapes': []})
+    cs.append({'kind': 'pulse', 'pt': {'k': 'for', 'i': 'i1', 'start': C(1), 'stop': C(3), 'step': C(1), 'b': m}, 'params': {},
+               'pad': '1', 'src': 'capture', 'shapes': []})
+    innerd = {'k': 'for', 'i': 'i1', 'start': C(0), 'stop': C(3), 'step': C(1),
+              'b': {'k': 'const', 'd': mul(V('i1'), V('T')), 'vals': {'A': C(1)}}}
+    cs.append({'kind': 'pulse', 'pt': {'k': 'map', 'b': innerd, 'pm': {'T': V('i1')}, 'cm': []}, 'params': {'i1': '2'}, 'pad': '1',
+               'src': 'capture', 'shapes': []})
+    # control: the same shape with a different outer name is fine
+    cs.append({'kind': 'pulse', 'pt': {'k': 'map', 'b': inner, 'pm': {'a': V('b')}, 'cm': []}, 'params': {'b': '2'}, 'pad': '1',
+               'src': 'capture-control', 'shapes': []})
+    return cs
+
+
+def mapping_captures(t, env):
+    """a MappingPT whose parameter mapping sends a parameter x of a for-loop below it to an expression mentioning that
+    loop's index name"""
+    if t['k'] != 'map':
+        return False
+
+    def loops(n):
+        out = [n] if n['k'] == 'for' else []
+        for key in ('b', 'l', 'r'):
+            if key in n:
+                out += loops(n[key])
+        for s_ in n.get('ps', []):
+            out += loops(s_)
+        return out
+    for f in loops(t['b']):
+        fv = free_vars(f)
+        for x, e in t['pm'].items():
+            if x in fv and f['i'] in e_vars(e, set()):
+                return True
+    return False
+
+
 def gen_cases(rng, tier, ctx):
-    cases = handmade()
+    cases = handmade() + blind_class_families(tier) + capture_family()
+    if tier == 'quick':
+        cases += shared_body_forests(rng, 2)
+        pairs = exhaustive_pair_forests(rng)
+        cases += [c for c in pairs if rng.random() < 0.02]
+        nf = 18
+    else:
+        cases += shared_body_forests(rng, 8) + exhaustive_pair_forests(rng)
+        nf = 400
+    for k in range(nf):
+        cases += random_forest(rng, 2 if k % 3 == 0 else 3)
     n = {'quick': 400, 'thorough': 4000}[tier]
     if tier == 'quick':
         sweep = [c for c in range_sweep(3) if rng.random() < 0.4]
